@@ -1565,7 +1565,7 @@ def bond_type_column(text):
         if line.startswith("@<TRIPOS>"):
             on = line.strip() == "@<TRIPOS>BOND"
             continue
-        if on and line.strip():
+        if on and line.strip() and not line.lstrip().startswith("#"):
             f = line.split()
             out.append(f[3] if len(f) > 3 else None)
     return out
